@@ -18,10 +18,8 @@ Proof.
   { apply (c_lead_open _ _ HI i Hr). destruct Hpc as [Hpc|Hpc]; rewrite Hpc; reflexivity. }
   rewrite Hd in Hs. subst s'.
   destruct Hpc as [Hpc|Hpc].
-  - Time solve_inv HI.
-    all: idtac "CLOSE1 REMAINING". Show.
-  - Time solve_inv HI.
-    all: idtac "CLOSE2 REMAINING". Show.
+  - solve_inv HI.
+  - solve_inv HI.
 Qed.
 
 Lemma inv_tau_close s i s' :
@@ -45,8 +43,7 @@ Lemma inv_tau_fdelete s i s' :
 Proof.
   intros HI He Hpc Hs. unfold tau in Hs. rewrite Hpc in Hs.
   destruct (a_ref (act s i)) as [j|] eqn:Hr; [|discriminate]. own HI j i. start Hs.
-  Time solve_inv HI.
-  all: idtac "FDELETE REMAINING". Show.
+  solve_inv HI.
 Qed.
 
 Lemma inv_tau_ferr s i s' :
@@ -56,9 +53,7 @@ Proof.
   destruct (a_ref (act s i)) as [j|] eqn:Hr; [|discriminate]. own HI j i.
   cbn [fix_b fixed andb] in Hs.
   destruct (a_cancel (act s i)) eqn:Hc; start Hs.
-  - Time solve_inv HI.
-    all: idtac "FERR1 REMAINING". Show.
-  - Time solve_inv HI.
-    all: idtac "FERR2 REMAINING". Show.
+  - solve_inv HI.
+  - solve_inv HI.
 Qed.
 End S.
